@@ -5,8 +5,9 @@ z->x): for a scene S (volume shape, materials incl. tensor components, boundary 
 absorbing layers, plane/point sources with their polarisation data, initial fields and PML
 auxiliary state) P.S is the scene with every axis attribute a replaced by (a+1)%3, every field /
 material component c moved to (c+1)%3 (tensor entry (r,c) to (r+1,c+1)) and every array's spatial
-axes rotated accordingly.  Obligation:   step(P.S) == P.step(S)   pointwise for E, H and the PML
-auxiliary arrays, for all shapes and values.  Three applications give the other orientation;
+axes rotated accordingly.  Obligation, for each of the two half steps h in {update_E, update_H} from
+ARBITRARY related states:   h(P.S) == P.h(S)   pointwise for E, H and the PML auxiliary arrays, for all
+shapes and values (the full step update_H o update_E commutes with P as a composition).  Three applications give the other orientation;
 induction over steps gives whole runs; raw detector records are restrictions of the fields.
 Source set-up (`apply`: incident profiles, time offsets) is compared at the level of its outputs:
 P.S carries the permuted set-up arrays (assumed contract for the profile generators).
@@ -211,15 +212,18 @@ def _task(spec):
         t_arr, t = K.time_scalar("t")
         c.assume((t < T).z)
         c.cover("pre")
-        s1 = U.update_H(t_arr, U.update_E(t_arr, arr, objs, cfg, True), objs, cfg, True)
-        s1P = U.update_H(t_arr, U.update_E(t_arr, arrP, objsP, cfg, True), objsP, cfg, True)
-        prove_arrays_equal("E_equivariant", s1P.fields.E, P_field(s1.fields.E))
-        prove_arrays_equal("H_equivariant", s1P.fields.H, P_field(s1.fields.H))
-        for b, bP in zip(bnds, bndsP):
-            if b.name in psiE:
-                for k in (0, 1):
-                    prove_arrays_equal(f"psi_E[{b.name}][{k}]_equivariant", s1P.fields.psi_E[bP.name][k], P_spatial(s1.fields.psi_E[b.name][k]))
-                    prove_arrays_equal(f"psi_H[{b.name}][{k}]_equivariant", s1P.fields.psi_H[bP.name][k], P_spatial(s1.fields.psi_H[b.name][k]))
+        # modular: each half step commutes with the relabelling on ARBITRARY related inputs (fields and PML
+        # auxiliary state), so update_H o update_E does too (composition of two commuting squares).
+        for hname, fn in (("update_E", U.update_E), ("update_H", U.update_H)):
+            s1 = fn(t_arr, arr, objs, cfg, True)
+            s1P = fn(t_arr, arrP, objsP, cfg, True)
+            prove_arrays_equal(f"{hname}:E_equivariant", s1P.fields.E, P_field(s1.fields.E))
+            prove_arrays_equal(f"{hname}:H_equivariant", s1P.fields.H, P_field(s1.fields.H))
+            for b, bP in zip(bnds, bndsP):
+                if b.name in psiE:
+                    for k in (0, 1):
+                        prove_arrays_equal(f"{hname}:psi_E[{b.name}][{k}]_equivariant", s1P.fields.psi_E[bP.name][k], P_spatial(s1.fields.psi_E[b.name][k]))
+                        prove_arrays_equal(f"{hname}:psi_H[{b.name}][{k}]_equivariant", s1P.fields.psi_H[bP.name][k], P_spatial(s1.fields.psi_H[b.name][k]))
 
     return body
 
